@@ -1,3 +1,5 @@
 import KernProofs.C11
 import KernProofs.C16
 import KernProofs.C09
+import KernProofs.C10
+import KernProofs.C18
